@@ -108,6 +108,7 @@ func registerExtlib(ex *Executor) {
 	registerPool(ex)
 	registerFS(ex)
 	registerCrypto(ex)
+	registerReflect(ex)
 	I["(*bytes.Buffer).Bytes"] = func(ex *Executor, st *State, cc *CallCtx, args []Val) (Val, ctl) {
 		b := ex.bufAt(st, args[0].(Ptr))
 		return BytesV{S: b.S, Nil: smt.False, Src: args[0].(Ptr), Ver: b.Ver}, cNext
